@@ -20,7 +20,10 @@
 
 package internal
 
-import "strconv"
+import (
+	"strconv"
+	"unicode/utf8"
+)
 
 // UnquoteSingleQuoted unquotes a slice of bytes representing a single quoted
 // string.
@@ -43,7 +46,8 @@ func UnquoteDoubleQuoted(in []byte) (string, error) {
 //
 // The body of the literal is copied one escape sequence at a time: \' becomes
 // ' (Go does not accept \' inside double quotes), an unescaped " becomes \",
-// and everything else, including \\ and \", is left as it is.
+// a byte that is not part of a valid UTF-8 sequence becomes \xHH, and
+// everything else, including \\ and \", is left as it is.
 //
 //	requote([]byte(`'a "b" \'c\''`), '\'') == []byte(`"a \"b\" 'c'"`)
 //	requote([]byte(`"a \'b\' \\"`), '"') == []byte(`"a 'b' \\"`)
@@ -69,6 +73,16 @@ func requote(in []byte, quote byte) []byte {
 			out = append(out, body[i])
 		case c == '"':
 			out = append(out, '\\', '"')
+		case c >= utf8.RuneSelf:
+			// strconv.Unquote replaces bytes that are not valid UTF-8 with
+			// U+FFFD. Write such a byte as \xHH so that it is kept as it is.
+			if r, size := utf8.DecodeRune(body[i:]); r == utf8.RuneError && size == 1 {
+				const hex = "0123456789abcdef"
+				out = append(out, '\\', 'x', hex[c>>4], hex[c&0xf])
+			} else {
+				out = append(out, body[i:i+size]...)
+				i += size - 1
+			}
 		default:
 			out = append(out, c)
 		}
